@@ -285,7 +285,10 @@ class Gen:
             mutating_inplace = bool(ev['inp'])
         elif name == 'subsample':
             ev.update(n=rng.randrange(12), by_id=int(rng.random() < 0.25),
-                      wr=int(rng.random() < 0.3), seed=rng.randrange(10 ** 6),
+                      wr=int(rng.random() < 0.3),
+                      seed=rng.choice([0, 0, 1, rng.randrange(10 ** 6),
+                                       rng.randrange(10 ** 6),
+                                       rng.randrange(2 ** 32)]),
                       nadj=rng.randrange(3) if rng.random() < 0.3 else 0)
         elif name == 'collapse':
             ev.update(fam=rng.randrange(4), salt=rng.randrange(100),
@@ -379,7 +382,7 @@ class Gen:
                 ev['partner'] = self._slot(w)
             ev['form'] = rng.randrange(3)
         elif name == 'text':
-            ev['which'] = rng.randrange(3)
+            ev['which'] = rng.randrange(4)
         return ev
 
     def ev_perturb(self, w):
